@@ -67,6 +67,11 @@ DoQSolve ==
 \* GFb127: add the low bit of val at bit index k (0..126)
 DoXorBit == Is("xor_bit") /\ Write(LET v == Bit(FromBytesLE(e.val), 0)
                                    IN <<BitXor(R(e.a)[1], IF v = 1 THEN Pow2(e.k) ELSE Zero), Zero>>)
+\* GFb127: write the low bit of val at bit index k
+DoSetBit == Is("set_bit") /\ Write(LET v == Bit(FromBytesLE(e.val), 0)
+                                       x == R(e.a)[1]
+                                       cleared == IF Bit(x, e.k) = 1 THEN BitXor(x, Pow2(e.k)) ELSE x
+                                   IN <<IF v = 1 THEN BitXor(cleared, Pow2(e.k)) ELSE cleared, Zero>>)
 DoGetBit == Is("get_bit") /\ Observe(Has("res") /\ e.res = Bit(R(e.a)[1], e.k))
 (* ---- codec and selection ---- *)
 DoEncode == Is("encode") /\ Observe(Has("out") /\ e.out = EncOf(R(e.a)))
@@ -101,7 +106,7 @@ DoLookup ==
 
 Next == \/ DoInit \/ DoRaw \/ DoAdd \/ DoSub \/ DoNeg \/ DoMul \/ DoSquare \/ DoXSquare \/ DoDiv \/ DoInvert \/ DoSqrt
         \/ DoMulSb \/ DoMulB \/ DoDivZ \/ DoDivZ2 \/ DoMulU \/ DoMulU1 \/ DoSelfPhi \/ DoTrace \/ DoHalfTrace \/ DoQSolve
-        \/ DoGetBit \/ DoXorBit \/ DoEncode \/ DoEquals \/ DoIsZero \/ DoDecodeCt \/ DoDecode \/ DoSetCond \/ DoSelect \/ DoCSwap
+        \/ DoGetBit \/ DoXorBit \/ DoSetBit \/ DoEncode \/ DoEquals \/ DoIsZero \/ DoDecodeCt \/ DoDecode \/ DoSetCond \/ DoSelect \/ DoCSwap
         \/ DoLookup
 Spec == Init /\ [][Next]_vars
 Consumed == TLCGet("stats").diameter - 1
